@@ -129,7 +129,7 @@ func genGeom(t *rapid.T, layouts []geom.Layout, depth int, floats int) *model.G 
 	if floats&gen.Infs != 0 { // every mode but bbox: GeoJSON cannot carry a LinearRing
 		kinds = append([]string{model.LinearRing}, gen.AllKinds...)
 	}
-	return gen.Tree(t, gen.TreeOpts{Layouts: layouts, Kinds: kinds, Floats: floats, MaxDepth: depth, MixLayouts: true, MaxParts: 3, MaxPts: 4, PEmpty: 25, LongPct: 1})
+	return gen.Tree(t, gen.TreeOpts{Layouts: layouts, Kinds: kinds, Floats: floats, MaxDepth: depth, MixLayouts: true, MaxParts: 3, MaxPts: 4, PEmpty: 25, LongPct: 1, SRID: gen.SRIDs})
 }
 
 func genBox(t *rapid.T, label string) Box {
@@ -253,6 +253,21 @@ func prop(c Case) error {
 					far[i] = -far[i]
 				}
 				b.Extend(geom.NewPointFlat(b.Layout(), far))
+				// ... and the box itself now covers the geometry and the two points
+				rb := ref{}
+				for k, v := range r {
+					rb[k] = v
+				}
+				names := dims(b.Layout())
+				rb.touch(names)
+				for i, n := range names {
+					x := rb[n]
+					x.lo, x.hi = math.Min(x.lo, -float64(1000+i)), math.Max(x.hi, float64(1000+i))
+					rb[n] = x
+				}
+				if err := checkBounds(g.Kind+".Bounds() extended by two further points", b, b.Layout(), rb); err != nil {
+					return err
+				}
 			}
 			if err := checkBounds(g.Kind+".Bounds() after the box returned earlier was extended by its caller", t.Bounds(), g.ReportedLayout(), r); err != nil {
 				return err
@@ -270,6 +285,11 @@ func prop(c Case) error {
 		// the bounds are those of the coordinates as they are now: every ordinate is
 		// rewritten in place (x -> -x-1 swaps the roles of minimum and maximum) and the
 		// bounds asked for again, on the same object
+		for i := 0; i < 2; i++ { // asked again first: what is remembered may only be used from the second or third time on
+			if err := checkBounds(g.Kind+".Bounds() asked again", t.Bounds(), g.ReportedLayout(), r); err != nil {
+				return err
+			}
+		}
 		for _, l := range held {
 			for i := range l.Flat {
 				l.Flat[i] = -l.Flat[i] - 1
